@@ -182,7 +182,7 @@ func buildOverlay(spec *Spec, forTest bool) (map[string][]byte, error) {
 		}
 		sb.WriteString("\t}\n\tname := os.Getenv(\"VERIF_ENTRY\")\n\tf := entries[name]\n\tif f == nil {\n\t\tt.Fatalf(\"unknown entry %q\", name)\n\t}\n")
 		if spec.Synctest {
-			sb.WriteString("\tsynctest.Test(t, func(t *testing.T) {\n\t\tfor _, o := range verifRun(name, f) {\n\t\t\tfmt.Println(\"VERIF-OUTCOME:\", o)\n\t\t}\n\t})\n")
+			sb.WriteString("\tverifWaitHook = synctest.Wait\n\tsynctest.Test(t, func(t *testing.T) {\n\t\tfor _, o := range verifRun(name, f) {\n\t\t\tfmt.Println(\"VERIF-OUTCOME:\", o)\n\t\t}\n\t})\n")
 		} else {
 			sb.WriteString("\tfor _, o := range verifRun(name, f) {\n\t\tfmt.Println(\"VERIF-OUTCOME:\", o)\n\t}\n")
 		}
@@ -361,7 +361,11 @@ func check(prop, tier, only string, verbose bool) int {
 			for _, s := range r.Inconclusive {
 				fmt.Fprintln(os.Stderr, "   inconclusive:", s)
 			}
-			for _, n := range r.Notes {
+			for i, n := range r.Notes {
+				if i >= 12 {
+					fmt.Fprintf(os.Stderr, "   ... %d more notes\n", len(r.Notes)-i)
+					break
+				}
 				fmt.Fprintln(os.Stderr, "   note:", n)
 			}
 		}
@@ -412,10 +416,13 @@ func check(prop, tier, only string, verbose bool) int {
 				exit = 1
 			}
 		}
-		for i, v := range r.Violations {
-			if i >= 3 {
-				break
+		confirmedIDs := map[string]bool{}
+		tried := map[string]int{}
+		for _, v := range r.Violations {
+			if confirmedIDs[v.ID] || tried[v.ID] >= 3 {
+				continue
 			}
+			tried[v.ID]++
 			rf := &ReplayFile{Property: prop, Entry: e.Name, Expect: "violated " + v.ID, Values: v.Values, Detail: v.Detail, Pos: v.Pos, Trace: v.Trace}
 			path := writeReplay(prop, rf)
 			os.WriteFile(strings.TrimSuffix(path, ".json")+".smt2", []byte(v.Script), 0o644)
@@ -436,11 +443,19 @@ func check(prop, tier, only string, verbose bool) int {
 				}
 			}
 			if ok {
-				lines = append(lines, fmt.Sprintf("VIOLATION property=%s replay=%s", prop, path))
+				confirmedIDs[v.ID] = true
+				keep := strings.TrimSuffix(path, ".json") + fmt.Sprintf("-%d.json", tried[v.ID])
+				os.Rename(path, keep)
+				lines = append(lines, fmt.Sprintf("VIOLATION property=%s replay=%s", prop, keep))
 				violations++
 				exit = 1
-			} else {
-				problems = append(problems, fmt.Sprintf("%s: counterexample for %s did not reproduce natively (unconfirmed) replay=%s", e.Name, v.ID, path))
+			} else if tried[v.ID] >= 3 {
+				problems = append(problems, fmt.Sprintf("%s: counterexamples for %s did not reproduce natively (unconfirmed) replay=%s", e.Name, v.ID, path))
+			}
+		}
+		for id, n := range tried {
+			if !confirmedIDs[id] && n < 3 {
+				problems = append(problems, fmt.Sprintf("%s: counterexample for %s did not reproduce natively (unconfirmed)", e.Name, id))
 			}
 		}
 	}
